@@ -43,6 +43,9 @@ type PESOpt struct {
 	CRC        *uint16
 	Ext        *PESExt
 	Stuffing   int // stuffing bytes at the end of the header
+	// Forbidden01 encodes PTS_DTS_flags as '01' (forbidden by ISO 13818-1; the syntax puts no timestamp in the header
+	// for it). Only meaningful without PTS and DTS; decode tests only.
+	Forbidden01 bool
 }
 
 // PES is a PES packet: header fields plus payload.
@@ -118,6 +121,8 @@ func (o *PESOpt) PTSDTSFlags() uint8 {
 		return 3
 	case o.PTS != nil:
 		return 2
+	case o.Forbidden01:
+		return 1
 	}
 	return 0
 }
